@@ -13,7 +13,7 @@ CONSTANTS RSizes, Rs, NMs, Ls, Os, Extras, ModeLs   \* parameter sets of the arc
 VARIABLE row
 
 NMq == {<<1, 1>>, <<2, 3>>, <<0, 1>>}
-NMt == {<<1, 1>>, <<2, 3>>, <<3, 2>>, <<0, 1>>, <<1, 0>>, <<4, 5>>, <<8, 9>>}
+NMt == {<<1, 1>>, <<2, 3>>, <<3, 2>>, <<0, 1>>, <<4, 5>>}
 
 ArchOf(rs, r, nm, l, o, ops, extra, mode) ==
   MkArch([rsize |-> rs, R |-> r, N |-> nm[1], M |-> nm[2], L |-> l, O |-> o, ops |-> ops, mode |-> mode], extra)
